@@ -207,6 +207,11 @@ def generate(rng, index, tier):
             lk2 = worlds.op_lookup(rng, rng.pick([30, 60, 100]))
             lk2['between'] = {'0': [{'k': 'one', 'name': 'MACH_MKRUNNABLE', 'q': 0, 'a': [rng.randrange(1, 120), rng.randrange(1, 120), 0, 0]}]}
             th['ops'].insert(rng.randrange(len(th['ops']) + 1), lk2)
+            # ... and one with a complete BSD call of the thread between its chunks (a signal handler's getpid, say)
+            lk3 = worlds.op_lookup(rng, rng.pick([30, 60, 100]))
+            sg_, eg_ = worlds.domains.draw(rng, 'BSC_getpid')
+            lk3['between'] = {'0': [{'k': 'sys', 'name': 'BSC_getpid', 's': sg_, 'e': eg_, 'in': []}]}
+            th['ops'].insert(rng.randrange(len(th['ops']) + 1), lk3)
             d['lookup_structures'] = True
         if rng.chance(0.15):
             # a record of a code that only the caller's own table names - as a kernel trace string, outside the trace class
